@@ -65,6 +65,7 @@ type scenario struct {
 	states  []string
 	dialAt  []time.Time
 	endAt   map[int]time.Time
+	answerPings bool    // the broker answers PINGREQ (keep-alive scenarios)
 	failAt  []time.Time // the failures that start a back-off wait, in order (dial failure, connection end)
 	used    []string    // faults applied so far
 }
@@ -208,6 +209,12 @@ func (c *sConn) Write(p []byte) (int, error) {
 		s.process(c, pkt, false)
 		return len(p), nil
 	}
+	if pkt.Type == 0xc0 {
+		if s.answerPings {
+			c.in = append(c.in, specPacket(0xd0, nil)...)
+		}
+		return len(p), nil
+	}
 	s.process(c, pkt, true)
 	return len(p), nil
 }
@@ -346,6 +353,7 @@ func parsePlan(s string) []planPoint {
 }
 
 const (
+	planTimeout      = 4 * time.Second
 	retryBase        = 4 * time.Millisecond
 	retryMax         = 16 * time.Millisecond
 	// generous: they only fire in scripts that contain a silent fault / an unanswered CONNECT, and a
@@ -411,7 +419,11 @@ func (r *retryRun) counters() planPoint {
 }
 
 func (r *retryRun) waitPlan(i int, want planPoint) {
-	deadline := time.Now().Add(5 * time.Second)
+	deadline := time.Now().Add(planTimeout)
+	if len(r.planMiss) > 0 {
+		// the run has already left the predicted path: do not wait long for later predictions
+		deadline = time.Now().Add(planTimeout / 10)
+	}
 	for {
 		c := r.counters()
 		if c.d >= want.d && c.w >= want.w && c.t >= want.t && c.e >= want.e && c.r >= want.r && c.h >= want.h && c.x >= want.x {
